@@ -24,7 +24,7 @@ Qed.
 
 Lemma Good_ext : forall ob n W W' sn sd, (forall k, W k = W' k) -> Good ob n W sn sd -> Good ob n W' sn sd.
 Proof.
-  intros ob n W W' sn sd HW G. destruct G as [G1 G2 G3 G4 G5 G6 G7 G8]. constructor; auto.
+  intros ob n W W' sn sd HW G. destruct G as [G1 G2 G3 G4 G5 G6 G6' G7 G8]. constructor; auto.
   - intros o k H1 H2. destruct (G4 o k H1 H2) as [v [A B]]. exists v. rewrite <- HW. auto.
   - intros o k H1 H2 H3 H4. destruct (G7 o k H1 H2 H3 H4) as [A|A]; [left; rewrite <- HW; auto|right; auto].
 Qed.
@@ -331,6 +331,7 @@ Section Sem.
         assert (In x []); [|auto]. apply (g_new _ _ _ _ _ GG). repeat split; congruence.
       + destruct (A_fresh x Hg Hn). congruence.
     - intros x [].
+    - split; constructor.
     - intros x k Hn Hk Ha Hd. destruct (Nat.lt_ge_cases x (gn g)) as [Hg|Hg].
       + destruct (A_id x Hg) as [A1 [A2 A3]]. rewrite A1 in Ha. destruct (A3 Ha) as [A4 A5].
         destruct (g_dels _ _ _ _ _ GG x k Hg) as [X|[x' [X1 X2]]]; try congruence; auto.
